@@ -11,15 +11,18 @@ Per run (see DESIGN.md section 2.1):
   (S) collect property witnesses found by the oracles on the implementation.
 Exit 0 / exit 1 + "VIOLATION property=<id> replay=<path>".
 """
-import argparse, fcntl, hashlib, json, os, re, shutil, subprocess, sys, time
+import argparse, fcntl, hashlib, json, os, re, resource, shutil, subprocess, sys, time
 
 ROOT = os.path.dirname(os.path.dirname(os.path.abspath(__file__)))
 COQ = os.path.join(ROOT, "coq")
 sys.path.insert(0, os.path.join(ROOT, "tools"))
 from props import PROPS  # noqa: E402
 
+# The registered commands always check /repo.  VERIF_REPO=<dir> points the harness at a
+# scratch copy instead (used only to try seeded changes without touching /repo).
+REPO = os.environ.get("VERIF_REPO", "/repo")
 GOENV = dict(os.environ, GOFLAGS="-mod=mod", GOPROXY="off", GOSUMDB="off",
-             GOTOOLCHAIN="local", TZ="UTC", CGO_ENABLED="0")
+             GOTOOLCHAIN="local", TZ="UTC", CGO_ENABLED="0", WH_REPO=REPO)
 
 FORBIDDEN = re.compile(
     r"\b(Admitted|admit|Axiom|Axioms|Parameter|Parameters|Conjecture|Conjectures|"
@@ -66,8 +69,14 @@ def write_if_changed(path, content):
 # ----------------------------------------------------------------------------
 def build_harness(log):
     h = os.path.join(ROOT, "harness")
-    shutil.copyfile("/repo/go.sum", os.path.join(h, "go.sum"))
-    rc, out, dt = sh(["go", "build", "-tags", "verif", "-o", "bin/wh", "./cmd/wh"], cwd=h, env=GOENV, timeout=600)
+    shutil.copyfile(os.path.join(REPO, "go.sum"), os.path.join(h, "go.sum"))
+    cmd = ["go", "build", "-tags", "verif", "-o", "bin/wh", "./cmd/wh"]
+    if REPO != "/repo":
+        mod = open(os.path.join(h, "go.mod")).read().replace("=> /repo", "=> " + REPO)
+        open(os.path.join(h, "go.alt.mod"), "w").write(mod)
+        shutil.copyfile(os.path.join(REPO, "go.sum"), os.path.join(h, "go.alt.sum"))
+        cmd = ["go", "build", "-modfile=go.alt.mod", "-tags", "verif", "-o", "bin/wh", "./cmd/wh"]
+    rc, out, dt = sh(cmd, cwd=h, env=GOENV, timeout=600)
     log["harness_build_s"] = round(dt, 1)
     if rc != 0:
         return False, out
@@ -208,13 +217,23 @@ def run_model(cases, order, work):
             f.write("%s\t%s\n" % (i, cases[i][0]))
     drv = os.path.join(ROOT, "ocaml", "_build", "driver")
     with open(inp) as fi:
-        p = subprocess.run([drv], stdin=fi, stdout=subprocess.PIPE, stderr=subprocess.PIPE, text=True, timeout=3000)
+        # extracted list functions are not tail recursive: lines of > 100 kB need a deep stack
+        p = subprocess.run([drv], stdin=fi, stdout=subprocess.PIPE, stderr=subprocess.PIPE, text=True, timeout=3000,
+                           preexec_fn=big_stack)
     res = {}
     for line in p.stdout.splitlines():
         if "\t" in line:
             i, o = line.split("\t", 1)
             res[i] = o
     return res, p.returncode, p.stderr[-2000:]
+
+
+def big_stack():
+    try:
+        hard = resource.getrlimit(resource.RLIMIT_STACK)[1]
+        resource.setrlimit(resource.RLIMIT_STACK, (hard, hard))
+    except (ValueError, OSError):
+        pass
 
 
 def coq_str(s):
@@ -307,6 +326,28 @@ def run_stream(pid, st, tier, seed, work, log):
     return res
 
 
+def run_selftests(P, tier, seed, work):
+    """statements that are executable predicates over histories (hs_ok / fs_ok) are
+    evaluated on random histories of the MODEL: a test that supports the theorem (and
+    finds a failing input when it is false); it never replaces the proof"""
+    out = []
+    drv = os.path.join(ROOT, "ocaml", "_build", "driver")
+    for st in P.get("selftests", []):
+        n = st["n"][0 if tier == "quick" else 1]
+        args = [sys.executable, os.path.join(ROOT, "tools", "histgen.py")] + st["args"] + [str(n), str(seed * 100003)]
+        g = subprocess.run(args, stdout=subprocess.PIPE, text=True, timeout=600)
+        p = subprocess.run([drv], input=g.stdout, stdout=subprocess.PIPE, text=True, timeout=3000)
+        lines = {l.split("\t")[0]: l.rstrip("\n").split("\t")[1] for l in g.stdout.splitlines() if "\t" in l}
+        bad, steps = [], 0
+        for l in p.stdout.splitlines():
+            i, o = l.split("\t", 1)
+            steps += len(o)
+            if not o or set(o) - {"1"}:
+                bad.append({"id": i, "input": lines.get(i, ""), "model": o})
+        out.append({"name": st["name"], "histories": len(lines), "steps": steps, "failing": bad[:3], "n_failing": len(bad)})
+    return out
+
+
 # ----------------------------------------------------------------------------
 def load_known():
     p = os.path.join(ROOT, "known_findings.json")
@@ -316,7 +357,7 @@ def load_known():
 
 
 def write_replay(pid, obj):
-    d = os.path.join(ROOT, "replays")
+    d = os.path.join(ROOT, "replays") if REPO == "/repo" else os.path.join(ROOT, ".work", "replays-scratch")
     os.makedirs(d, exist_ok=True)
     p = os.path.join(d, "%s-%d.json" % (pid, int(time.time())))
     json.dump(obj, open(p, "w"), indent=1)
@@ -366,6 +407,7 @@ def main():
     os.makedirs(work, exist_ok=True)
     problems = []      # proof / tie problems (no concrete failing input)
     stream_res = []
+    selftests = []
     proof = {"ok": False, "theorems": [], "examples": [], "axioms": [], "closed": 0, "prints": 0}
     try:
         with Lock("build"):
@@ -411,12 +453,23 @@ def main():
                                      "detail": json.dumps(m)[:3000], "case": m})
                 if not r["vm_ok"]:
                     problems.append({"kind": "tie", "what": "vm_compute cross-check of stream %s failed" % st["name"], "detail": r.get("vm_out", "")})
+            selftests = run_selftests(P, tier, seed, work)
+            for t in selftests:
+                if t["n_failing"]:
+                    b = t["failing"][0]
+                    problems.append({"kind": "proof", "what": "statement %s is FALSE on the model for a generated history" % t["name"],
+                                     "detail": json.dumps(b)[:3000],
+                                     "case": {"stream": "model-selftest", "input": b["input"], "impl": "(model only)", "model": b["model"]}})
     finally:
         shutil.rmtree(work, ignore_errors=True)
 
     # ---- verdict -------------------------------------------------------------
     known = load_known()
-    witnesses = [w for r in stream_res for w in r.get("witnesses", []) if w["property"] == pid]
+    # a panic or hang of the implementation while running this property's streams is a
+    # failing input for this property too, whatever property the oracle filed it under
+    def relevant(w):
+        return w["property"] == pid or w["signature"].endswith("panic") or w["signature"].endswith("hang")
+    witnesses = [w for r in stream_res for w in r.get("witnesses", []) if relevant(w)]
     open_sigs = {(k["property"], k["signature"]) for k in known.get("open", [])}
     new, seen_known = [], {}
     for w in witnesses:
@@ -473,6 +526,7 @@ def main():
             "samples": [s for r in stream_res for s in r.get("sample", [])][:6] or ["(no stream ran)"],
             "input_distribution": stats,
             "streams": [{k: r.get(k) for k in ("name", "n", "cases", "compared", "impl_s", "model_s", "vm_cases", "vm_s")} for r in stream_res],
+            "statement_selftests_on_model": [{k: t[k] for k in ("name", "histories", "steps", "n_failing")} for t in selftests],
             "known_findings_seen": sorted(seen_known),
             "problems": [p["what"] for p in problems],
             "timings": log,
@@ -481,8 +535,10 @@ def main():
         "wall_s": round(time.time() - t_start, 1),
         "violations": violations,
     }
-    os.makedirs(os.path.join(ROOT, "evidence"), exist_ok=True)
-    json.dump(ev, open(os.path.join(ROOT, "evidence", pid + ".json"), "w"), indent=1)
+    # evidence of runs against a scratch copy (VERIF_REPO) must not replace the real one
+    evdir = os.path.join(ROOT, "evidence") if REPO == "/repo" else os.path.join(ROOT, ".work", "evidence-scratch")
+    os.makedirs(evdir, exist_ok=True)
+    json.dump(ev, open(os.path.join(evdir, pid + ".json"), "w"), indent=1)
     print("%s %s: theorems=%d/%d cases=%d mismatches=%d witnesses=%d(new %d) wall=%.0fs" % (
         pid, "FAIL" if violations else "ok", ev["coverage"]["discharged"], n_obl, evaluations,
         ev["coverage"]["disagreements_checked"], len(witnesses), len(new), ev["wall_s"]))
